@@ -23,17 +23,19 @@ type FOpts struct {
 	InitStates       []string // subset of absent fresh stale toostale
 	FixedConf        *FConf
 	NoLongSleeps     bool
+	Prelude          bool // sometimes start from "a build of the first key has just failed": failure cached, value (if any) stale again
 }
 
 // FOut is the outcome of one scenario.
 type FOut struct {
-	Term    string
-	Tag     string
-	Replay  map[string]any
-	Nontriv bool
-	PcStats map[string]int
-	CtxObs  []map[string]any
-	Conf    FConf
+	Term      string
+	Tag       string
+	Replay    map[string]any
+	Nontriv   bool
+	PcStats   map[string]int
+	CtxObs    []map[string]any
+	Deadlines map[int]int64
+	Conf      FConf
 }
 
 func randFConf(rng *rand.Rand) FConf {
@@ -92,6 +94,7 @@ func GenFailover(t *testing.T, rng *rand.Rand, o FOpts) FOut {
 	var (
 		out   FOut
 		gets  []GetSpec
+		pre   []GetSpec
 		locks int
 	)
 
@@ -121,9 +124,23 @@ func GenFailover(t *testing.T, rng *rand.Rand, o FOpts) FOut {
 		}
 
 		tok, errn := int64(100), int64(1)
+		prelude := o.Prelude && !collide && rng.Intn(3) == 0 // (cached failures of colliding keys evict each other, see below)
+
+		if prelude {
+			// one lone Get whose build fails, run to completion: the failure is cached (unless FailedUpdateTTL = -1);
+			// the first Get on that key below is preceded by ExpireAll, so a value that was served or re-stored is stale again
+			pg := GetSpec{Tid: 90, Key: keys[0], Plan: BuildPlan{Ok: false, Err: 900}}
+			r.Exec([]GetSpec{pg}, Policy{MaxSteps: 2000})
+			pre = append(pre, pg)
+		}
 
 		for i := 0; i < ng; i++ {
 			g := GetSpec{Tid: i + 1, Key: keys[rng.Intn(nk)]}
+
+			if prelude && string(g.Key) == string(keys[0]) {
+				g.ExpireAllBefore = true
+				prelude = false
+			}
 			tok++
 			errn++
 			g.Plan = BuildPlan{Ok: rng.Float64() >= o.FailRate, Val: tok, Err: errn}
@@ -154,9 +171,21 @@ func GenFailover(t *testing.T, rng *rand.Rand, o FOpts) FOut {
 				g.Cancel = rng.Intn(2) == 0
 				g.Rewrite = rng.Intn(2) == 0
 
-				if rng.Intn(3) == 0 {
+				switch rng.Intn(6) {
+				case 0, 1:
 					g.Deadline = int64(time.Hour)
+				case 2:
+					g.Deadline = int64(5 * time.Second) // may run out while the Get or its build is parked
 				}
+			}
+
+			// callers that have already gone away, or go away in the middle of the build: the builder then fails
+			// with the (wrapped) error of its context
+			switch rng.Intn(8) {
+			case 0:
+				g.CancelBefore = true
+			case 1:
+				g.Plan.CancelMid = true
 			}
 
 			gets = append(gets, g)
@@ -189,7 +218,12 @@ func GenFailover(t *testing.T, rng *rand.Rand, o FOpts) FOut {
 		out.Term = fmt.Sprintf("FCase %s %s %s", conf.Coq(), List(r.Labels), Z(int64(locks)))
 		out.PcStats = r.PcStats
 		out.CtxObs = r.ctxObs
-		out.Replay = map[string]any{"conf": conf, "init": init, "gets": gets, "steps": r.Replay, "finalKeyLocks": locks, "results": r.results}
+		out.Deadlines = map[int]int64{}
+
+		for k, v := range r.deadlines {
+			out.Deadlines[k] = v
+		}
+		out.Replay = map[string]any{"conf": conf, "init": init, "prelude": pre, "gets": gets, "steps": r.Replay, "finalKeyLocks": locks, "results": r.results}
 		out.Nontriv = len(r.Labels) > 2*ng && ng >= 2
 	})
 
